@@ -642,6 +642,29 @@ impl Rw {
                 self.note("X6", line);
                 Some(parse_quote!(unreachable_here()))
             }
+            // X6b: `matches!(e, pat [if guard])` is the `match` core defines it to be
+            "matches" => {
+                use syn::parse::Parser;
+                let parser = |input: syn::parse::ParseStream| -> syn::Result<(Expr, Pat, Option<Expr>)> {
+                    let e: Expr = input.parse()?;
+                    input.parse::<syn::Token![,]>()?;
+                    let pat = Pat::parse_multi_with_leading_vert(input)?;
+                    let guard = if input.peek(syn::Token![if]) {
+                        input.parse::<syn::Token![if]>()?;
+                        Some(input.parse::<Expr>()?)
+                    } else {
+                        None
+                    };
+                    let _ = input.parse::<Option<syn::Token![,]>>()?;
+                    Ok((e, pat, guard))
+                };
+                let (e, pat, guard) = parser.parse2(m.tokens.clone()).ok()?;
+                self.note("X6b", line);
+                Some(match guard {
+                    Some(g) => parse_quote!(match #e { #pat if #g => true, _ => false }),
+                    None => parse_quote!(match #e { #pat => true, _ => false }),
+                })
+            }
             _ => None,
         }
     }
